@@ -30,6 +30,13 @@ type WellKnownResult struct {
 // LookupWellKnown looks up a well-known record for a matrix server. If one if
 // found, it returns the server to redirect to.
 func LookupWellKnown(ctx context.Context, serverNameType spec.ServerName) (*WellKnownResult, error) {
+	return lookupWellKnown(ctx, serverNameType, nil)
+}
+
+// lookupWellKnown is LookupWellKnown making its connection with the given dial
+// function, so that a client's allow / deny network lists also govern the
+// well-known request. A nil dial function means the default HTTP transport.
+func lookupWellKnown(ctx context.Context, serverNameType spec.ServerName, dial dialContextFunc) (*WellKnownResult, error) {
 	serverName := string(serverNameType)
 
 	// Handle ending "/"
@@ -44,6 +51,13 @@ func LookupWellKnown(ctx context.Context, serverNameType spec.ServerName) (*Well
 	}
 	// Given well-known should be quite small and fast to fetch, timeout the request after 30s.
 	client := http.Client{Timeout: time.Second * 30}
+	if dial != nil {
+		client.Transport = &http.Transport{
+			DialContext:       dial,
+			Proxy:             http.ProxyFromEnvironment,
+			DisableKeepAlives: true, // one request per transport
+		}
+	}
 	resp, err := client.Do(req)
 	if err != nil {
 		return nil, err
